@@ -298,6 +298,28 @@ func universe() []Val {
 	add(sv("[]fmt.Stringer{nil,x}", true, func(v int) interface{} { return []fmt.Stringer{nil, strT{secStr[v]}} }))
 	add(sv("complex in container", true, func(v int) interface{} { return []interface{}{secC[v], complex64(secC[v])} }))
 	add(sv("uint8 named slice", true, func(v int) interface{} { return []namedU8{namedU8('h' + v), 'a'} }))
+	// --- values whose shortest rendering depends on the width of their own kind
+	add(sv("float32 shortest", true, func(v int) interface{} { return [2]float32{0.1, 3.14}[v] }))
+	add(sv("float64 exponents", true, func(v int) interface{} { return [2]float64{1e21, 1e-7}[v] }))
+	add(sv("complex64 shortest", true, func(v int) interface{} { return [2]complex64{complex(0.1, 0.3), complex(3.14, -1e-7)}[v] }))
+	add(sv("float64 NaN", true, func(v int) interface{} { return [2]float64{nan(), 5}[v] }))
+	// --- text that reaches the output through the TYPE, not the value: struct tags are arbitrary strings and are
+	// part of the type's name (%T, %#v)
+	type tagged = struct {
+		A string "t‹ag›"
+		B int    "› ×\n"
+	}
+	add(sv("struct with markers in field tags", true, func(v int) interface{} { return tagged{secStr[v], secInt[v]} }))
+	add(sv("*struct with markers in field tags", true, func(v int) interface{} { return &tagged{secStr[v], secInt[v]} }))
+	add(sv("[]struct / map keyed by struct with markers in field tags", true, func(v int) interface{} {
+		return []interface{}{[]tagged{{secStr[v], 1}}, map[tagged]bool{{"k", secInt[v]}: true}, (*tagged)(nil), func(tagged) {}}
+	}))
+	add(sv("reflect.StructOf type with markers in a tag", true, func(v int) interface{} {
+		t := reflect.StructOf([]reflect.StructField{{Name: "X", Type: reflect.TypeOf(""), Tag: reflect.StructTag("‹›")}})
+		x := reflect.New(t).Elem()
+		x.Field(0).SetString(secStr[v])
+		return x.Interface()
+	}))
 	// --- reflect.Value
 	add(sv("reflect(int)", true, func(v int) interface{} { return reflect.ValueOf(secInt[v]) }))
 	add(sv("reflect(string)", true, func(v int) interface{} { return reflect.ValueOf(secStrLF[v]) }))
@@ -491,3 +513,5 @@ func fmtUniverse() []Val {
 	}
 	return r
 }
+
+func nan() float64 { return math.NaN() }
